@@ -258,22 +258,38 @@ type verifC36H struct {
 	ctxErr error
 }
 
-func verifC36NewH(n int, rate int, idleOn bool) *verifC36H {
-	h := &verifC36H{n: n, rate: rate, ctxErr: errors.New("ctx ended")}
-	h.delays = make([]time.Duration, n)
-	for i := range h.delays {
-		// any table of non-negative durations below 2^40 ns (negative entries: VerifC36Delay)
-		h.delays[i] = time.Duration(verifI64(verifName("delay", i)))
-		verifAssume(h.delays[i] >= 0)
-		verifAssume(h.delays[i] < (1 << 40))
-	}
-	if idleOn {
-		h.idle = time.Duration(verifI64("idle"))
-		verifAssume(h.idle > 0)
-		verifAssume(h.idle < (1 << 40))
-	}
+// Delay tables and idle timeouts of the concrete sequences: every order relation between the
+// delays of neighbouring levels, the idle timeout and zero occurs.
+var verifC36Tables = [][]time.Duration{
+	{0, 100 * time.Millisecond, 250 * time.Millisecond},
+	{0, 300 * time.Millisecond, 100 * time.Millisecond}, // not monotone
+	{0, 0, 70 * time.Millisecond},                       // a level without delay
+	{0, 50 * time.Millisecond},
+}
+var verifC36Idles = []time.Duration{0, 40 * time.Millisecond, 150 * time.Millisecond, time.Second}
+
+func verifC36NewH(delays []time.Duration, rate int, idle time.Duration) *verifC36H {
+	h := &verifC36H{n: len(delays), rate: rate, idle: idle, delays: delays, ctxErr: errors.New("ctx ended")}
 	h.t = New(h.delays, rate, h.idle)
 	return h
+}
+
+// verifC36SymH: any table of n non-negative durations below 2^40 ns (negative entries:
+// VerifC36Delay), any idle timeout below 2^40 ns.
+func verifC36SymH(n int, rate int, idleOn bool) *verifC36H {
+	delays := make([]time.Duration, n)
+	for i := range delays {
+		delays[i] = time.Duration(verifI64(verifName("delay", i)))
+		verifAssume(delays[i] >= 0)
+		verifAssume(delays[i] < (1 << 40))
+	}
+	idle := time.Duration(0)
+	if idleOn {
+		idle = time.Duration(verifI64("idle"))
+		verifAssume(idle > 0)
+		verifAssume(idle < (1 << 40))
+	}
+	return verifC36NewH(delays, rate, idle)
 }
 
 // cleanup ends the context of every request still waiting, so that no goroutine of the native
@@ -402,17 +418,19 @@ func (h *verifC36H) nextEvent() (int64, bool) {
 	return next, have
 }
 
-// sleep moves the model clock: to the next event exactly (exact), or to an instant before it.
+// sleep moves the model clock: to the next event exactly (exact), or to an instant before it
+// (name != "": any such instant; else half way, 10 ms if nothing is pending).
 func (h *verifC36H) sleep(exact bool, name string) bool {
 	next, have := h.nextEvent()
 	now := verifClock()
 	var a int64
-	if exact {
+	switch {
+	case exact:
 		if !have {
 			return false
 		}
 		a = next - now
-	} else {
+	case name != "":
 		a = verifI64(name)
 		verifAssume(a > 0)
 		if have {
@@ -420,6 +438,13 @@ func (h *verifC36H) sleep(exact bool, name string) bool {
 		} else {
 			verifAssume(a < (1 << 40))
 		}
+	case have:
+		a = (next - now) / 2
+		if a < 1 {
+			return false
+		}
+	default:
+		a = int64(10 * time.Millisecond)
 	}
 	time.Sleep(time.Duration(a))
 	verifSettle()
@@ -477,57 +502,110 @@ func (h *verifC36H) waiting() int {
 	return k
 }
 
-// VerifC36Conc: bounded sequences of concurrent calls against the reference.
+// step performs operation op (0..7) and checks the oracle; false: op not applicable here.
+func (h *verifC36H) step(op int, sleepName string) bool {
+	w := h.waiting()
+	switch op {
+	case 0:
+		h.signal()
+		if w > 0 {
+			verifReach("signal-while-request-waits")
+		}
+	case 1:
+		h.release()
+		if w > 0 {
+			verifReach("release-while-request-waits")
+		}
+	case 2:
+		h.reset()
+		if w > 0 {
+			verifReach("reset-while-request-waits")
+		}
+	case 3:
+		h.request(false)
+		if w > 0 {
+			verifReach("two-requests-waiting")
+		}
+	case 4:
+		h.request(true)
+	case 5:
+		if !h.cancel() {
+			return false
+		}
+	case 6:
+		if !h.sleep(true, "") {
+			return false
+		}
+	case 7:
+		if !h.sleep(false, sleepName) {
+			return false
+		}
+	}
+	h.checkRequests()
+	h.observe()
+	return true
+}
+
+// VerifC36Conc: every sequence of K concurrent operations (signal, release, reset, request,
+// request with an ended context, context end, sleep to / to before the next event) on the
+// concrete tables, against the reference.
 func VerifC36Conc() {
 	verifC36UseNativeRest()
-	n := 2 + verifChoice("tableLen", 2) // 2..3
-	rate := 1 + verifChoice("rate", 2)
-	idleOn := verifChoice("idleOn", 2) == 1
-	h := verifC36NewH(n, rate, idleOn)
-	defer h.cleanup()
-	// reach the start level by pressure signals (this also starts the idle timeout)
-	pre := verifChoice("startLevel", n)
-	for i := 0; i < pre; i++ {
-		h.signal()
-	}
+	var delays []time.Duration
+	var idle time.Duration
+	rate := 1
 	K := 3
 	if verifTier() == 1 {
 		K = 4
+		delays = verifC36Tables[verifChoice("table", len(verifC36Tables))]
+		idle = verifC36Idles[verifChoice("idle", len(verifC36Idles))]
+		rate = 1 + verifChoice("rate", 2)
+	} else {
+		delays = verifC36Tables[0]
+		idle = verifC36Idles[verifChoice("idle", 3)]
+	}
+	h := verifC36NewH(delays, rate, idle)
+	defer h.cleanup()
+	// reach the start level by pressure signals (this also starts the idle timeout)
+	pre := 1 + verifChoice("startLevel", h.n-1)
+	for i := 0; i < pre; i++ {
+		h.signal()
 	}
 	for i := 0; i < K; i++ {
-		w := h.waiting()
-		switch verifChoice(verifName("op", i), 8) {
-		case 0:
-			h.signal()
-			if w > 0 {
-				verifReach("signal-while-request-waits")
-			}
-		case 1:
-			h.release()
-			if w > 0 {
-				verifReach("release-while-request-waits")
-			}
-		case 2:
-			h.reset()
-		case 3:
-			h.request(false)
-			if w > 0 {
-				verifReach("two-requests-waiting")
-			}
-		case 4:
-			h.request(true)
-		case 5:
-			if !h.cancel() {
-				return
-			}
-		case 6:
-			if !h.sleep(true, "") {
-				return
-			}
-		case 7:
-			h.sleep(false, verifName("sleep", i))
+		if !h.step(verifChoice(verifName("op", i), 8), "") {
+			return
 		}
-		h.checkRequests()
-		h.observe()
 	}
+}
+
+// VerifC36ConcSym: the same oracle for ANY delay table and idle timeout on the scenario
+// "a request is waiting; the level changes or the idle timeout expires; a second request
+// arrives; its context ends or its delay passes".
+func VerifC36ConcSym() {
+	verifC36UseNativeRest()
+	n := 2
+	rate := 1
+	if verifTier() == 1 {
+		n = 2 + verifChoice("tableLen", 2)
+		rate = 1 + verifChoice("rate", 2)
+	}
+	h := verifC36SymH(n, rate, verifChoice("idleOn", 2) == 1)
+	defer h.cleanup()
+	pre := 1 + verifChoice("startLevel", n-1)
+	for i := 0; i < pre; i++ {
+		h.signal()
+	}
+	h.step(3, "") // request A
+	if verifChoice("pause", 2) == 1 {
+		h.step(7, "pauseNs")
+	}
+	// the level changes / time passes up to the next event (A is over, or the idle timeout expires)
+	h.step([]int{0, 1, 2, 6}[verifChoice("change", 4)], "")
+	// request B, its context alive or ended
+	h.step(3+verifChoice("ctxEnded", 2), "")
+	// B's context ends, or the next event comes
+	if !h.step(5+verifChoice("then", 2), "") {
+		return
+	}
+	h.step(6, "")
 }
